@@ -1,5 +1,6 @@
 """C11 specs for the partition puzzles (fillomino, compass, fivecells), view and shakashaka."""
 
+import functools
 import itertools
 
 from hypothesis import strategies as st
@@ -389,6 +390,15 @@ def shaka_valid(h, w, wall, assign, clues):
     return True
 
 
+@functools.lru_cache(maxsize=4096)
+def shaka_clue_free(h, w, wall, whites):
+    out = []
+    for combo in itertools.product(range(5), repeat=len(whites)):
+        if shaka_valid(h, w, wall, dict(zip(whites, combo)), {}):
+            out.append(combo)
+    return out
+
+
 class Shakashaka(Spec):
     name = "shakashaka"
     max_cells_quick = 6   # white cells (5^k candidates)
@@ -403,7 +413,16 @@ class Shakashaka(Spec):
         for c in whites[max_cells:]:
             wall.add(c)
         whites = whites[:max_cells]
-        plant = {c: draw(st.sampled_from([0, 0, 1, 2, 3, 4])) for c in whites}
+        # plant one of the rule-obeying fillings of the clue-free board (enumerated), preferring ones
+        # with triangles, so that satisfiable instances with triangles are common
+        valid = shaka_clue_free(h, w, frozenset(wall), tuple(whites[:min(len(whites), 5)]))
+        with_tri = [v for v in valid if any(v)]
+        pool = with_tri if with_tri and draw(st.integers(0, 3)) > 0 else valid
+        if pool:
+            chosen = pool[draw(st.integers(0, len(pool) - 1))]
+        else:
+            chosen = tuple(0 for _ in whites[:5])
+        plant = dict(zip(whites[:min(len(whites), 5)], chosen))
         prob = [[None] * w for _ in range(h)]
         for (y, x) in wall:
             k = sum(1 for q in neighbors4(y, x, h, w) if plant.get(q, 0) != 0)
